@@ -100,7 +100,7 @@ def strategy(tier):
 
 
 def hyp_examples(tier):
-    return 5000 if tier == "quick" else 300000
+    return 15000 if tier == "quick" else 300000
 
 
 def _ent(entries):
